@@ -80,7 +80,7 @@ theorem win_eof_pending (w : Win) (h : (Win.prims.next w).1 = eofR) : (Win.prims
 /-- the final states of the two lexers -/
 def winRun (chunks : List Bytes) : LexSt Win :=
   let total := (chunks.map List.length).sum
-  lexRun Win.prims (total + 2) (2 * total + 4) .start
+  lexRun Win.prims (total + 2) (3 * total + 4) .start
     { s := { input := [], start := 0, pos := 0, posShift := 0, width := 0, pending := chunks, lfs := [] }, toks := [] }
 
 theorem lexChunks_eq (chunks : List Bytes) : lexChunks chunks = ((winRun chunks).toks.reverse, (winRun chunks).s.lfs) := rfl
@@ -93,7 +93,7 @@ theorem lfs_chunk_indep (chunks : List Bytes) (heof : headTyp (winRun chunks) = 
   simp only
   -- the invariant along the run
   have hrel := lexRun_sim (winWholeSim' (newlinesFrom 0 chunks.flatten)) ((chunks.map List.length).sum + 2)
-    (2 * (chunks.map List.length).sum + 4) .start
+    (3 * (chunks.map List.length).sum + 4) .start
     { s := { input := [], start := 0, pos := 0, posShift := 0, width := 0, pending := chunks, lfs := [] }, toks := [] }
     { s := { pos := 0, cur := [], rest := chunks.flatten, width := 0 }, toks := [] }
     ⟨⟨⟨Nat.le_refl _, Nat.zero_le _, rfl, rfl, rfl, rfl⟩, by simp [LI]⟩, rfl⟩
